@@ -100,6 +100,17 @@ def linesNamed (batch : List (List Char)) (name : String) (ls : List ErrLine) : 
   ls.all fun l => l.kind == "record" && l.to == name &&
     FeedbackLine.attributedTo batch name.toList (l.raw.toList ++ ['\n'])
 
+/-- the runner's reading of a stderr line ("trim; split at the first `": "`") gives back this
+test case name (`c12Attributable`; the hypotheses of `feedback_line_attributed` on the name) -/
+def attributable (n : String) : Bool :=
+  ServerRunner.Spec.noSep n.toList && FeedbackLine.startsClean n.toList && FeedbackLine.oneLine n.toList &&
+  !n.toList.contains '\r'
+
+/-- for a name the runner's reading cannot carry only the server's side is judged: every line
+it writes for the request starts with the name and `": "` -/
+def linesStartWith (name : String) (ls : List ErrLine) : Bool :=
+  ls.all fun l => l.raw.startsWith (name ++ ": ")
+
 structure Obs where
   lines : List ErrLine := []
   called : Bool
@@ -141,7 +152,7 @@ def generalHolds (batch : List (List Char)) (earlier : List String) (r : Req) (i
   let name := testName r
   let fb := i.fb.map fbOfClass
   if !i.named then (false, "a message is not prefixed with the test case name") else
-  if !linesNamed batch name i.lines then
+  if !(if attributable name then linesNamed batch name i.lines else linesStartWith name i.lines) then
     (false, s!"a line of the server's stderr is not attributed to test case {name.quote} by the runner: {(i.lines.map (·.raw))}") else
   if name == "" then
     (!i.called && i.fb.isEmpty && i.error, "a request without test name must be rejected outright")
